@@ -81,18 +81,99 @@ class HeapProxy:
 
 # ------------------------------------------------------------------ screens
 
+class RawView:
+    """the input experiments read straight from the raw description -- independent of batchie's `Screen` (the oracles
+    compare the implementation's output with *this*, so nothing the constructor might do to its arrays can hide a change)"""
+
+    def __init__(self, raw):
+        n, a = len(raw["snames"]), raw["arity"]
+        self.size = n
+        self.treatment_names = np.array(raw["tnames"], dtype=str).reshape(n, a)
+        self.treatment_doses = np.array(raw["tdoses"], dtype=float).reshape(n, a)
+        self.sample_names = np.array(raw["snames"], dtype=str)
+        self.plate_names = np.array(raw["pnames"], dtype=str)
+        if raw["obs"] is None:
+            self.observations = np.zeros(n)
+            self.observation_mask = np.zeros(n, dtype=bool)
+        else:
+            self.observations = np.array(raw["obs"], dtype=float)
+            self.observation_mask = np.ones(n, dtype=bool) if raw["mask"] is None else np.array(raw["mask"], dtype=bool)
+
+
+def fill_treatments(rng, n, a, ctrl, tpool, dpool, p_single=0.25, p_vehicle=0.06, p_dup=0.1):
+    """treatment cells of n rows: full combinations, single-agent rows (one control cell, by name or by dose),
+    vehicle-only rows (EVERY cell is the control, by name and/or by dose) and exact duplicates of earlier conditions"""
+    pos = [d for d in dpool if d > 0]
+    tn, td = [], []
+    for _ in range(n):
+        u = rng.random()
+        if tn and u < p_dup:
+            j = rng.randrange(len(tn))
+            r_n, r_d = list(tn[j]), list(td[j])
+        elif u < p_dup + p_vehicle:
+            r_n, r_d = [], []
+            for _ in range(a):
+                if rng.random() < 0.5:
+                    r_n.append(ctrl)
+                    r_d.append(rng.choice(dpool))
+                else:
+                    r_n.append(rng.choice(tpool))
+                    r_d.append(rng.choice([0.0, -1.0]))
+        elif u < p_dup + p_vehicle + p_single and a >= 2:
+            r_n = [rng.choice(tpool) for _ in range(a)]
+            r_d = [rng.choice(pos) for _ in range(a)]
+            k = rng.randrange(a)
+            if rng.random() < 0.5:
+                r_n[k] = ctrl
+            else:
+                r_d[k] = rng.choice([0.0, -1.0])
+        else:
+            r_n = [rng.choice(tpool) for _ in range(a)]
+            r_d = [rng.choice(dpool) for _ in range(a)]
+        tn.append(r_n)
+        td.append(r_d)
+    return tn, td
+
+
+def obs_values(rng, n):
+    """distinct values (so that moving a value between rows is visible), a few duplicates and zeros"""
+    obs = [round((i + 1) / (n + 3.0), 6) for i in range(n)]
+    rng.shuffle(obs)
+    for i in range(n):
+        if rng.random() < 0.08:
+            obs[i] = rng.choice([0.0, 0.5, 1.0, obs[0]])
+    return obs
+
+
+def pools(rng, ctrl=None, n_treat=None):
+    ctrl = ctrl if ctrl is not None else rng.choice(["", "control", "dmso", "a"])
+    tpool = rng.sample(TREAT_POOL, n_treat or rng.randint(2, 6)) + ([ctrl] if rng.random() < 0.7 else [])
+    dpool = rng.sample([0.0, 1.0, 2.0, 0.5, -1.0, 10.0, 0.1], rng.randint(2, 4))
+    if all(d <= 0 for d in dpool):
+        dpool.append(1.0)
+    return ctrl, tpool, dpool
+
+
+def raw_from_layout(rng, rows, arity=None, shuffle=True, mask_none=False, **fill):
+    """raw screen from a layout [(sample, plate, observed)]"""
+    a = arity if arity is not None else rng.choice([2, 2, 2, 2, 1, 3])
+    ctrl, tpool, dpool = pools(rng)
+    rows = list(rows)
+    if shuffle:
+        rng.shuffle(rows)
+    n = len(rows)
+    tn, td = fill_treatments(rng, n, a, ctrl, tpool, dpool, **fill)
+    mask = None if mask_none else [o for _, _, o in rows]
+    return dict(ctrl=ctrl, arity=a, tnames=tn, tdoses=td, snames=[s for s, _, _ in rows], pnames=[p for _, p, _ in rows],
+                obs=obs_values(rng, n), mask=mask, tmap=None, smap=None)
+
+
 def gen_screen(rng, style, arity=None, n_scale=1):
     """raw screen for the preparation operations.  style:
        seg    one-sample-per-plate design (merge / n-plate smoothers), assorted plate sizes
        mixed  plates cut across samples
        lump   all unobserved rows in a single plate
        full   fully observed (initial plate generator)"""
-    a = arity if arity is not None else rng.choice([2, 2, 2, 2, 1, 3])
-    ctrl = rng.choice(["", "control", "dmso", "a"])
-    tpool = rng.sample(TREAT_POOL, rng.randint(2, 6)) + ([ctrl] if rng.random() < 0.7 else [])
-    dpool = rng.sample([0.0, 1.0, 2.0, 0.5, -1.0, 10.0, 0.1], rng.randint(2, 4))
-    if all(d <= 0 for d in dpool):
-        dpool.append(1.0)
     samples = rng.sample(SAMPLE_POOL, rng.randint(1, 4))
     pnames = rng.sample(PLATE_POOL, len(PLATE_POOL))
     rows = []  # (sample, plate, observed)
@@ -122,51 +203,40 @@ def gen_screen(rng, style, arity=None, n_scale=1):
                 p = pnames.pop()
                 for _ in range(rng.randint(1, 4)):
                     rows.append((rng.choice(samples), p, True))
-    rng.shuffle(rows)
-    n = len(rows)
-    tn, td = [], []
-    for _ in range(n):
-        if rng.random() < 0.25 and a >= 2:
-            # single-agent row: one control cell (by name or by dose)
-            r_n = [rng.choice(tpool) for _ in range(a)]
-            r_d = [rng.choice([d for d in dpool if d > 0]) for _ in range(a)]
-            k = rng.randrange(a)
-            if rng.random() < 0.5:
-                r_n[k] = ctrl
-            else:
-                r_d[k] = rng.choice([0.0, -1.0])
-        else:
-            r_n = [rng.choice(tpool) for _ in range(a)]
-            r_d = [rng.choice(dpool) for _ in range(a)]
-        tn.append(r_n)
-        td.append(r_d)
-    # observation values: distinct (so that moving a value between rows is visible), a few duplicates and zeros
-    obs = [round((i + 1) / (n + 3.0), 6) for i in range(n)]
-    rng.shuffle(obs)
-    for i in range(n):
-        if rng.random() < 0.08:
-            obs[i] = rng.choice([0.0, 0.5, 1.0, obs[0]])
-    mask = [o for _, _, o in rows]
-    if style == "full" and rng.random() < 0.5:
-        mask = None
-    return dict(ctrl=ctrl, arity=a, tnames=tn, tdoses=td, snames=[s for s, _, _ in rows], pnames=[p for _, p, _ in rows],
-                obs=obs, mask=mask, tmap=None, smap=None)
+    return raw_from_layout(rng, rows, arity=arity, mask_none=(style == "full" and rng.random() < 0.5))
+
+
+def ensure_combo_rows(rng, raw, p=0.8):
+    """(mostly) give every sample with unobserved rows an unobserved full-combination row, so that the pairwise
+    generator finds a plate for the sample's single-agent / vehicle-only rows"""
+    if rng.random() >= p:
+        return raw
+    ctrl = raw["ctrl"]
+    good = [x for x in TREAT_POOL if x != ctrl]
+    mask = raw["mask"] or [True] * len(raw["snames"])
+    for s in sorted(set(raw["snames"])):
+        idx = [i for i, x in enumerate(raw["snames"]) if x == s and not mask[i]]
+        if idx:
+            i = rng.choice(idx)
+            raw["tnames"][i] = [rng.choice(good) for _ in range(raw["arity"])]
+            raw["tdoses"][i] = [rng.choice([1.0, 2.0]) for _ in range(raw["arity"])]
+    return raw
 
 
 def gen_pair_screen(rng):
-    """arity-2 screen where (mostly) every single-agent sample also has combination rows"""
-    raw = gen_screen(rng, rng.choice(["mixed", "lump", "seg"]), arity=2)
-    if rng.random() < 0.8:
-        ctrl = raw["ctrl"]
-        good = [x for x in TREAT_POOL if x != ctrl]
-        for s in set(raw["snames"]):
-            # make sure the sample has an unobserved combination row
-            idx = [i for i, x in enumerate(raw["snames"]) if x == s and not raw["mask"][i]]
-            if idx:
-                i = rng.choice(idx)
-                raw["tnames"][i] = [rng.choice(good), rng.choice(good)]
-                raw["tdoses"][i] = [1.0, rng.choice([1.0, 2.0])]
-    return raw
+    """screen (arity 2, sometimes 3 or 1) where (mostly) every single-agent sample also has combination rows"""
+    raw = gen_screen(rng, rng.choice(["mixed", "lump", "seg"]), arity=rng.choice([2, 2, 2, 2, 3, 3, 1]))
+    return ensure_combo_rows(rng, raw)
+
+
+def superset_maps(rng, raw):
+    """mappings batchie itself produces for a superset of the data, as plain python values (the case must be JSON-able)"""
+    try:
+        tm, sm = S.superset_mappings(rng, raw)
+        raw["tmap"] = ([str(x) for x in tm[0]], [float(x) for x in tm[1]], [int(x) for x in tm[2]])
+        raw["smap"] = ([str(x) for x in sm[0]], [int(x) for x in sm[1]])
+    except Exception:
+        raw["tmap"] = raw["smap"] = None
 
 
 def gen_case(rng, op):
@@ -218,10 +288,7 @@ def gen_case(rng, op):
     elif op in ("ho-bal", "ho-rand"):
         raw = gen_screen(rng, rng.choice(["mixed", "seg", "lump", "full"]))
         if rng.random() < 0.3:
-            try:
-                raw["tmap"], raw["smap"] = S.superset_mappings(rng, raw)
-            except Exception:
-                raw["tmap"] = raw["smap"] = None
+            superset_maps(rng, raw)
         p["fraction"] = rng.choice([0.0, 1.0, 0.5, 0.1, 0.25, 1 / 3.0, 0.2, 0.7, 0.9999, 1e-9, rng.random(), rng.random(),
                                     -0.1 if rng.random() < 0.3 else 0.5, 1.5 if rng.random() < 0.3 else 1.0])
     else:
@@ -232,6 +299,345 @@ def gen_case(rng, op):
         full["mask"] = [True] * len(full["snames"])
         raw = full
     return {"op": op, "params": p, "raw": raw, "npseed": seed}
+
+
+# ------------------------------------------------------------------ directed cases
+#
+# Families of inputs that random screens of <= 14 rows practically never reach but on which realistic edits of the code
+# go wrong (each family is listed in the evidence `distribution` as `directed.<family>`):
+#   ho-bal-big / ho-rand-big   plates of >= 12 rows and several fractions: ceil(fraction x size) >= 2 on every plate, so a draw
+#                              WITH replacement (numpy's default) holds out too few rows -- the per-plate count oracle is exact
+#   vehicle                    unobserved rows in which EVERY treatment is the control (and duplicate conditions, arity 2/3)
+#                              through every operation: a non-complementary combo/single split drops them
+#   seg-11 / pair-11 / perm-11 >= 11 generated plates in one call (`generated_plate_10` in a fixed-width `<U17` buffer
+#                              becomes `generated_plate_1`), samples exactly at / one above the size limit
+#   topbottom-odd              plate counts 3,5,6,7,11 (and others) per sample with 1-4 iterations: ceil-halving per iteration
+#   mergemin-exact             two smallest plates summing to exactly the limit / the limit + 1
+#   fixed-exact / opt-ties     plates exactly of the requested size; size lists whose retained count ties between sizes
+#   nplate-multi               several samples below the minimum interleaved (in id order) with samples that stay
+#   pair-arity                 pairwise generator at arity 3 and 1
+
+def _plate_names(rng, k):
+    """k distinct plate names; some collide in their first 17 characters when written into a narrow buffer"""
+    style = rng.choice(["pl", "generated", "mixed"])
+    if style == "pl":
+        return ["pl%d" % i for i in rng.sample(range(0, 40), k)]
+    if style == "generated":
+        return ["generated_plate_%d" % i for i in rng.sample(range(0, 3 * k + 12), k)]
+    pool = ["w%d" % i for i in range(k)] + rng.sample(PLATE_POOL, min(len(PLATE_POOL), k))
+    return rng.sample(sorted(set(pool)), k)
+
+
+def _samples(rng, k):
+    pool = SAMPLE_POOL + ["s4", "s5", "s6", "s7", "s11", "s12", "A", "b c"]
+    return rng.sample(pool, k)
+
+
+def _observed_extra(rng, rows, samples, names):
+    for _ in range(rng.choice([0, 1, 1, 2])):
+        p = names.pop()
+        for _ in range(rng.randint(1, 5)):
+            rows.append((rng.choice(samples), p, True))
+
+
+def seg_layout(rng, counts_sizes, observed=True):
+    """one-sample-per-plate design: counts_sizes = {sample: [plate sizes]}"""
+    total = sum(len(v) for v in counts_sizes.values()) + 3
+    names = _plate_names(rng, total)
+    rows = []
+    for smp, sizes in counts_sizes.items():
+        for sz in sizes:
+            p = names.pop()
+            rows += [(smp, p, False)] * sz
+    if observed:
+        _observed_extra(rng, rows, list(counts_sizes), names)
+    return rows
+
+
+def d_holdout_big(rng, op):
+    samples = _samples(rng, rng.randint(1, 3))
+    names = _plate_names(rng, 7)
+    rows = []
+    for _ in range(rng.randint(2, 4) if op == "ho-bal" else rng.randint(1, 3)):
+        p = names.pop()
+        for _ in range(rng.choice([12, 12, 13, 15, 16, 20, 24, 30])):
+            rows.append((rng.choice(samples), p, False))
+    if rng.random() < 0.5:      # a small unobserved plate next to the big ones (ceil of a fraction of 1..3 rows)
+        p = names.pop()
+        rows += [(rng.choice(samples), p, False)] * rng.randint(1, 3)
+    _observed_extra(rng, rows, samples, names)
+    raw = raw_from_layout(rng, rows, p_vehicle=0.08, p_dup=0.15)
+    if rng.random() < 0.3:
+        superset_maps(rng, raw)
+    f = rng.choice([0.1, 0.2, 0.25, 1 / 3.0, 0.4, 0.5, 0.5, 0.6, 0.7, 0.75, 0.9, 1.0, 0.15 + 0.8 * rng.random()])
+    return {"op": op, "params": {"fraction": f}, "raw": raw, "npseed": rng.randrange(2 ** 31)}
+
+
+def vehicle_raw(rng, style, arity):
+    """screen with at least two unobserved vehicle-only rows and at least one duplicated condition"""
+    raw = gen_screen(rng, style, arity=arity, n_scale=2)
+    a, ctrl = raw["arity"], raw["ctrl"]
+    mask = raw["mask"] or [True] * len(raw["snames"])
+    target = [i for i, m in enumerate(mask) if not m] or list(range(len(mask)))
+    for i in rng.sample(target, min(len(target), rng.randint(2, 3))):
+        by_name = rng.random() < 0.5
+        raw["tnames"][i] = [ctrl if (by_name or rng.random() < 0.5) else rng.choice(TREAT_POOL) for _ in range(a)]
+        raw["tdoses"][i] = [1.0 if raw["tnames"][i][k] == ctrl and rng.random() < 0.5 else rng.choice([0.0, -1.0]) for k in range(a)]
+    if len(target) >= 2:
+        i, j = rng.sample(target, 2)
+        raw["tnames"][j], raw["tdoses"][j] = list(raw["tnames"][i]), list(raw["tdoses"][i])
+        if raw["snames"][i] != raw["snames"][j] and rng.random() < 0.5:
+            pass  # same condition on two samples
+    return raw
+
+
+def d_vehicle(rng, op):
+    a = rng.choice([2, 2, 3])
+    p = {}
+    if op == "gen-perm":
+        raw = vehicle_raw(rng, rng.choice(["mixed", "seg"]), a)
+        present = sorted(set(raw["pnames"]))
+        p["force"] = rng.choice([None, rng.sample(present, 1)])
+    elif op == "gen-seg":
+        raw = vehicle_raw(rng, "mixed", a)
+        p["max"] = rng.choice([1, 2, 3, 4])
+    elif op == "gen-pair":
+        raw = ensure_combo_rows(rng, vehicle_raw(rng, rng.choice(["mixed", "lump", "seg"]), a), p=1.0)
+        p["subset"] = rng.choice([1, 1, 2])
+        p["anchor"] = rng.choice([0, 0, 1, 2])
+    elif op == "sm-fixed":
+        raw = vehicle_raw(rng, "seg", a)
+        p["k"] = rng.choice([1, 2, 2, 3])
+    elif op == "sm-opt":
+        raw = vehicle_raw(rng, "seg", a)
+    elif op == "sm-nplate":
+        raw = vehicle_raw(rng, "seg", a)
+        p["k"] = rng.choice([1, 2, 2])
+    elif op == "sm-mergemin":
+        raw = vehicle_raw(rng, "seg", a)
+        p["k"] = rng.choice([3, 4, 6, 8])
+    elif op == "sm-topbottom":
+        raw = vehicle_raw(rng, "seg", a)
+        p["k"] = rng.choice([1, 2, 3])
+    elif op == "sm-ensemble":
+        raw = vehicle_raw(rng, "seg", a)
+        p["min_size"], p["n_iter"], p["min_n"] = rng.choice([2, 4, 6]), rng.choice([0, 1, 2]), rng.choice([0, 1, 2])
+    elif op == "cover":
+        raw = vehicle_raw(rng, "full", a)
+        p["reveal"] = rng.random() < 0.5
+    elif op == "combofilter":
+        raw = vehicle_raw(rng, rng.choice(["mixed", "full"]), a)
+    else:
+        raw = vehicle_raw(rng, rng.choice(["mixed", "seg"]), a)
+        p["fraction"] = rng.choice([0.25, 0.5, 0.75, 1.0])
+    return {"op": op, "params": p, "raw": raw, "npseed": rng.randrange(2 ** 31)}
+
+
+def d_seg11(rng):
+    """>= 11 generated plates; samples exactly at / one above / below the limit"""
+    mx = rng.choice([1, 2, 2, 3, 3, 4, 5])
+    style = rng.random()
+    if style < 0.5:      # a few samples that split into many plates
+        samples = _samples(rng, rng.randint(2, 4))
+        sizes = {smp: rng.choice([mx, mx + 1, 2 * mx, 2 * mx + 1, 3 * mx, 4 * mx - 1 if mx > 1 else 4, 5 * mx + 1]) for smp in samples}
+        while sum(-(-n // mx) for n in sizes.values()) < 11:
+            sizes[rng.choice(samples)] += mx
+    else:                # many samples at or below the limit (one plate each) and a few above
+        samples = _samples(rng, rng.randint(11, 14))
+        sizes = {smp: rng.choice([1, mx, mx, max(1, mx - 1), mx + 1]) for smp in samples}
+    names = _plate_names(rng, 4)
+    rows = []
+    for smp, n in sizes.items():
+        for _ in range(n):
+            rows.append((smp, rng.choice(names[:2]), False))
+    _observed_extra(rng, rows, samples, names[2:])
+    raw = raw_from_layout(rng, rows)
+    return {"op": "gen-seg", "params": {"max": mx}, "raw": raw, "npseed": rng.randrange(2 ** 31)}
+
+
+def d_pair11(rng):
+    """pairwise generator with >= 11 generated plates: >= 3 samples, each with 4..9 distinct (group, group) tuples"""
+    a = rng.choice([2, 2, 2, 3])
+    ctrl = rng.choice(["", "control", "dmso"])
+    treats = rng.sample([t for t in TREAT_POOL if t != ctrl], rng.randint(5, 7))
+    samples = _samples(rng, rng.randint(3, 5))
+    names = _plate_names(rng, 4)
+    rows, tn, td = [], [], []
+    for smp in samples:
+        combos = set()
+        want = rng.randint(4, 9)
+        for _ in range(60):
+            if len(combos) >= want:
+                break
+            combos.add(tuple(sorted(rng.sample(treats, a) if rng.random() < 0.85 else [rng.choice(treats)] * a)))
+        for c in sorted(combos):
+            for _ in range(rng.choice([1, 1, 1, 2])):
+                rows.append((smp, rng.choice(names[:2]), False))
+                c2 = list(c)
+                rng.shuffle(c2)
+                tn.append(c2)
+                td.append([1.0] * a)
+        for _ in range(rng.choice([0, 1, 2])):      # single-agent / vehicle-only rows of the sample
+            rows.append((smp, rng.choice(names[:2]), False))
+            r_n = [rng.choice(treats) for _ in range(a)]
+            r_d = [1.0] * a
+            for k in (range(a) if rng.random() < 0.4 else [rng.randrange(a)]):
+                if rng.random() < 0.5:
+                    r_n[k] = ctrl
+                else:
+                    r_d[k] = 0.0
+            tn.append(r_n)
+            td.append(r_d)
+    n_un = len(rows)
+    for _ in range(rng.choice([0, 1])):
+        p = names[2]
+        for _ in range(rng.randint(1, 4)):
+            rows.append((rng.choice(samples), p, True))
+            tn.append([rng.choice(treats) for _ in range(a)])
+            td.append([rng.choice([1.0, 2.0, 0.0]) for _ in range(a)])
+    order = list(range(len(rows)))
+    rng.shuffle(order)
+    raw = dict(ctrl=ctrl, arity=a, tnames=[tn[i] for i in order], tdoses=[td[i] for i in order],
+               snames=[rows[i][0] for i in order], pnames=[rows[i][1] for i in order], obs=obs_values(rng, len(rows)),
+               mask=[rows[i][2] for i in order], tmap=None, smap=None)
+    sub = rng.choice([1, 1, 1, 2])
+    p = {"subset": sub, "anchor": rng.choice([0, 0, 0, sub, 2 * sub])}
+    return {"op": "gen-pair", "params": p, "raw": raw, "npseed": rng.randrange(2 ** 31)}
+
+
+def d_pair_arity(rng):
+    raw = ensure_combo_rows(rng, gen_screen(rng, rng.choice(["mixed", "lump", "seg"]), arity=rng.choice([3, 3, 1]), n_scale=2), p=1.0)
+    sub = rng.choice([1, 1, 2])
+    p = {"subset": sub, "anchor": rng.choice([0, 0, sub, 2 * sub, 3])}
+    return {"op": "gen-pair", "params": p, "raw": raw, "npseed": rng.randrange(2 ** 31)}
+
+
+def d_perm11(rng):
+    samples = _samples(rng, rng.randint(2, 4))
+    names = _plate_names(rng, rng.randint(12, 15))
+    rows = []
+    obs_pl = set(rng.sample(names, rng.choice([0, 1, 2])))
+    for p in names:
+        for _ in range(rng.randint(1, 3)):
+            rows.append((rng.choice(samples), p, p in obs_pl))
+    raw = raw_from_layout(rng, rows)
+    force = rng.choice([None, rng.sample(names, rng.randint(1, 4))])
+    return {"op": "gen-perm", "params": {"force": force}, "raw": raw, "npseed": rng.randrange(2 ** 31)}
+
+
+def _sizes(rng, k, pool=(1, 1, 2, 2, 3, 3, 4)):
+    return [rng.choice(pool) for _ in range(k)]
+
+
+def d_topbottom(rng):
+    samples = _samples(rng, rng.randint(1, 3))
+    counts = {smp: rng.choice([3, 5, 6, 7, 11, 3, 5, 7, 2, 4, 9, 1]) for smp in samples}
+    if all(c in (1, 2, 4) for c in counts.values()):
+        counts[samples[0]] = rng.choice([3, 5, 6, 7, 11])
+    layout = seg_layout(rng, {smp: _sizes(rng, c) for smp, c in counts.items()})
+    raw = raw_from_layout(rng, layout)
+    return {"op": "sm-topbottom", "params": {"k": rng.choice([1, 2, 2, 3, 3, 4])}, "raw": raw, "npseed": rng.randrange(2 ** 31)}
+
+
+def d_mergemin(rng):
+    samples = _samples(rng, rng.randint(1, 3))
+    k = rng.choice([3, 4, 5, 6, 8])
+    cs = {}
+    for smp in samples:
+        sizes = _sizes(rng, rng.randint(3, 7), pool=(1, 1, 2, 2, 3, 4, 5))
+        # make the two smallest plates sum to exactly the limit, or to the limit + 1, at the start or after one merge
+        mode = rng.choice(["eq", "eq+1", "after", "free"])
+        if mode in ("eq", "eq+1"):
+            t = k if mode == "eq" else k + 1
+            x = rng.randint(1, max(1, t // 2))
+            sizes = [x, t - x] + [max(z, t - x) for z in sizes[2:]]
+        elif mode == "after" and k >= 3:
+            x = rng.randint(1, k - 2)
+            y = rng.randint(1, k - 1 - x)
+            sizes = [x, y, k - x - y] + [max(z, k) for z in sizes[3:]]
+        cs[smp] = [z for z in sizes if z > 0]
+    raw = raw_from_layout(rng, seg_layout(rng, cs))
+    return {"op": "sm-mergemin", "params": {"k": k}, "raw": raw, "npseed": rng.randrange(2 ** 31)}
+
+
+TIE_SIZES = [[2, 4], [2, 2, 4, 4], [3, 6], [1, 2], [2, 3, 6], [4, 4, 8], [3, 3, 3, 9], [1, 1, 2], [2, 2, 2, 3, 3], [1, 2, 3, 6],
+             [5, 5], [2, 3, 4, 6, 12], [6, 4, 3], [4, 2, 2, 1, 1, 1, 1]]
+
+
+def d_opt(rng):
+    sizes = list(rng.choice(TIE_SIZES))
+    if rng.random() < 0.3:
+        sizes = [z * 2 for z in sizes]
+    rng.shuffle(sizes)
+    samples = _samples(rng, rng.randint(1, 3))
+    cs = {smp: [] for smp in samples}
+    for z in sizes:
+        cs[rng.choice(samples)].append(z)
+    raw = raw_from_layout(rng, seg_layout(rng, {k: v for k, v in cs.items() if v}))
+    return {"op": "sm-opt", "params": {}, "raw": raw, "npseed": rng.randrange(2 ** 31)}
+
+
+def d_fixed(rng):
+    k = rng.choice([2, 3, 4, 5])
+    samples = _samples(rng, rng.randint(1, 3))
+    cs = {smp: [rng.choice([k, k, k - 1, k + 1, k + 3, 1, 2 * k]) for _ in range(rng.randint(2, 5))] for smp in samples}
+    raw = raw_from_layout(rng, seg_layout(rng, cs))
+    return {"op": "sm-fixed", "params": {"k": k}, "raw": raw, "npseed": rng.randrange(2 ** 31)}
+
+
+def d_nplate(rng, ensemble=False):
+    k = rng.choice([2, 2, 3])
+    samples = sorted(_samples(rng, rng.randint(5, 7)))
+    # in sorted (= id) order: droppable and staying samples interleaved, at least two to drop
+    counts = {smp: rng.choice([k - 1, k - 1, 1, k, k + 1, k + 2]) for smp in samples}
+    low = [smp for smp in samples if counts[smp] < k]
+    while len(low) < 2:
+        smp = rng.choice(samples)
+        counts[smp] = 1
+        low = [x for x in samples if counts[x] < k]
+    if len(low) == len(samples):
+        counts[rng.choice(samples[1:])] = k + 1
+    cs = {smp: _sizes(rng, counts[smp], pool=(1, 2, 2, 3)) for smp in samples}
+    raw = raw_from_layout(rng, seg_layout(rng, cs))
+    if ensemble:
+        p = {"min_size": rng.choice([0, 1, 2]), "n_iter": 0 if rng.random() < 0.7 else 1, "min_n": k}
+        return {"op": "sm-ensemble", "params": p, "raw": raw, "npseed": rng.randrange(2 ** 31)}
+    return {"op": "sm-nplate", "params": {"k": k}, "raw": raw, "npseed": rng.randrange(2 ** 31)}
+
+
+def d_ensemble(rng):
+    samples = _samples(rng, rng.randint(2, 4))
+    cs = {smp: _sizes(rng, rng.choice([2, 3, 4, 5, 6, 7])) for smp in samples}
+    raw = raw_from_layout(rng, seg_layout(rng, cs))
+    p = {"min_size": rng.choice([2, 3, 4, 6]), "n_iter": rng.choice([1, 2, 3]), "min_n": rng.choice([1, 2, 2])}
+    return {"op": "sm-ensemble", "params": p, "raw": raw, "npseed": rng.randrange(2 ** 31)}
+
+
+def directed_cases(rng, mult):
+    """[(family, case)]"""
+    out = []
+    fams = [
+        ("ho-bal-big", 7, lambda: d_holdout_big(rng, "ho-bal")),
+        ("ho-rand-big", 3, lambda: d_holdout_big(rng, "ho-rand")),
+        ("seg-11", 5, lambda: d_seg11(rng)),
+        ("pair-11", 5, lambda: d_pair11(rng)),
+        ("pair-arity", 3, lambda: d_pair_arity(rng)),
+        ("perm-11", 2, lambda: d_perm11(rng)),
+        ("topbottom-odd", 8, lambda: d_topbottom(rng)),
+        ("mergemin-exact", 6, lambda: d_mergemin(rng)),
+        ("opt-ties", 4, lambda: d_opt(rng)),
+        ("fixed-exact", 3, lambda: d_fixed(rng)),
+        ("nplate-multi", 4, lambda: d_nplate(rng)),
+        ("nplate-multi-ensemble", 2, lambda: d_nplate(rng, ensemble=True)),
+        ("ensemble", 3, lambda: d_ensemble(rng)),
+    ]
+    for name, n, f in fams:
+        for _ in range(n * mult):
+            out.append((name, f()))
+    for op in OPS:
+        for _ in range((2 if op == "gen-pair" else 1) * mult):
+            out.append(("vehicle", d_vehicle(rng, op)))
+    return out
 
 
 # ------------------------------------------------------------------ running the real code
@@ -251,8 +657,8 @@ def execute(case):
     from batchie.data import filter_dataset_to_treatments_that_appear_in_at_least_one_combo
     o = Outcome()
     try:
-        o.inp = S.build(case["raw"])
         work = S.build(case["raw"])
+        o.inp = RawView(case["raw"])
     except Exception as e:
         o.parent_err = e
         return o
@@ -443,13 +849,16 @@ def oracles_c11(res, case, o):
             fail("training rows do not carry their original mask", None, "mask as it was")
         got = Counter(str(x) for x in hold.plate_names)
         if op == "ho-bal":
-            for pl in s.plates:
-                nm = str(pl.plate_name)
-                want = 0 if pl.is_observed else math.ceil(pl.size * f)
+            size = Counter(str(x) for x in s.plate_names)
+            seen = {str(x): bool(m) for x, m in zip(s.plate_names, s.observation_mask)}
+            for nm in sorted(size):
+                want = 0 if seen[nm] else math.ceil(size[nm] * f)
                 if got.get(nm, 0) != want:
                     fail("hold-out takes the wrong number of experiments from a plate",
-                         {"plate": nm, "observed": bool(pl.is_observed), "size": int(pl.size), "taken": got.get(nm, 0)}, want)
+                         {"plate": nm, "observed": seen[nm], "size": size[nm], "taken": got.get(nm, 0), "fraction": f}, want)
                     return
+            if set(got) - set(size):
+                fail("hold-out has a plate label that is not in the input", sorted(set(got) - set(size)), "input plates")
         else:
             if hold.size != math.ceil(s.size * f):
                 fail("random hold-out has the wrong size", int(hold.size), math.ceil(s.size * f))
@@ -604,34 +1013,112 @@ def oracles_c13(res, case, o):
 
 # ------------------------------------------------------------------ common run / replay
 
+def clause_counters(res, case, o):
+    """how often the generated inputs make each clause of C11 / C13 non-trivial (evidence `distribution`)"""
+    if o.inp is None or o.err is not None or o.out is None:
+        return
+    op, p, s = case["op"], case["params"], o.inp
+    up = unobs_plates(s)
+    a = case["raw"]["arity"]
+    if isinstance(o.out, tuple):
+        f = p["fraction"]
+        if op == "ho-bal":
+            ks = [math.ceil(len(v) * f) for v in up.values()]
+            if any(k >= 2 for k in ks):
+                res.count("clause.ho-bal: some plate with ceil(fraction x size) >= 2")
+            if any(len(v) >= 12 and 2 <= math.ceil(len(v) * f) < len(v) for v in up.values()):
+                res.count("clause.ho-bal: plate of >= 12 rows, 2 <= count < size")
+            if up and not bool(np.all(~s.observation_mask)):
+                res.count("clause.ho-bal: observed and unobserved plates together")
+        elif math.ceil(s.size * f) >= 2:
+            res.count("clause.ho-rand: count >= 2")
+        return
+    t = o.out
+    un = ~np.asarray(s.observation_mask, dtype=bool)
+    if un.any() and op not in ("cover", "combofilter"):
+        veh = [i for i in range(s.size) if un[i] and all(
+            str(s.treatment_names[i][k]) == case["raw"]["ctrl"] or s.treatment_doses[i][k] <= 0 for k in range(a))]
+        if veh:
+            res.count("clause.%s: unobserved vehicle-only rows" % op)
+        if a >= 3:
+            res.count("clause.%s: arity >= 3" % op)
+        if (~un).any():
+            res.count("clause.%s: observed part present" % op)
+    if op in GENERATORS and un.any():
+        n_out = len(unobs_plates(t))
+        if n_out >= 11:
+            res.count("clause.%s: >= 11 unobserved plates in the result" % op)
+    if op == "gen-seg" and un.any():
+        per = Counter(str(s.sample_names[i]) for i in range(s.size) if un[i])
+        if sum(1 for v in per.values() if v <= p["max"]) >= 2:
+            res.count("clause.gen-seg: >= 2 samples at or below the limit")
+        if any(v == p["max"] for v in per.values()):
+            res.count("clause.gen-seg: sample exactly at the limit")
+    if op == "sm-topbottom" and single_sample_design(s):
+        for smp, szs in plates_by_sample(s).items():
+            n, it = len(szs), 0
+            while it < p["k"] and n > 1:
+                if n % 2 == 1 and n >= 3 and it + 1 < p["k"]:
+                    res.count("clause.sm-topbottom: odd count >= 3 before the last iteration")
+                    break
+                n, it = n - n // 2, it + 1
+    if op == "sm-mergemin" and single_sample_design(s):
+        for smp, szs in plates_by_sample(t).items():
+            if len(szs) >= 2 and szs[0] + szs[1] == p["k"] + 1:
+                res.count("clause.sm-mergemin: stopped at exactly limit + 1")
+        if any(sz == p["k"] for sz in (Counter(len(v) for v in unobs_plates(t).values()) - Counter(len(v) for v in up.values()))):
+            res.count("clause.sm-mergemin: merged to exactly the limit")
+    if op == "sm-opt" and up:
+        sizes = [len(v) for v in up.values()]
+        vals = sorted((sz * sum(1 for x in sizes if x >= sz) for sz in set(sizes)), reverse=True)
+        if len(vals) >= 2 and vals[0] == vals[1]:
+            res.count("clause.sm-opt: retained count ties between two sizes")
+    if op == "sm-fixed" and up and any(len(v) == p["k"] for v in up.values()) and any(len(v) > p["k"] for v in up.values()):
+        res.count("clause.sm-fixed: plates exactly at and above the size")
+    if op == "sm-nplate" and single_sample_design(s):
+        pin = plates_by_sample(s)
+        drop = sorted(x for x, v in pin.items() if len(v) < p["k"])
+        if len(drop) >= 2 and len(drop) < len(pin):
+            res.count("clause.sm-nplate: >= 2 samples dropped, some kept")
+
+
 def run_property(ctx, res, prop, oracle, rule):
     res.rule = rule
     rng = ctx.subrng(prop, "prep")
-    per_op = ctx.scale(80, 700, 250)
-    lines, expect, cases = [], [], []
+    per_op = ctx.scale(62, 600, 220)
+    todo = []
     for op in OPS:
         for _ in range(per_op):
-            case = gen_case(rng, op)
-            o = execute(case)
-            res.evaluations += 1
-            res.count("op." + op)
-            if o.parent_err is not None:
-                res.count("parent-error")
-                continue
-            res.count("outcome." + ("error:" + type(o.err).__name__ if o.err is not None else "returned"))
-            res.count("rows.%s" % ("1-5" if o.inp.size <= 5 else "6-15" if o.inp.size <= 15 else "16+"))
-            if o.rng is not None and any(e[0].startswith("other:") for e in o.rng.log):
-                res.notes.append("unrecorded generator method used by %s: %s" % (op, [e[0] for e in o.rng.log if e[0].startswith("other:")][:3]))
-            oracle(res, case, o)
-            if nontrivial(case, o):
-                res.nontrivial.add((op, common.short_hash(case)))
-            line = driver_line(case, o)
-            out = impl_canon(case, o)
-            if rng.random() < 0.01:
-                res.sample({"op": op, "params": case["params"], "line": line[:400], "impl": out[:300]})
-            lines.append(line)
-            expect.append(out)
-            cases.append(case)
+            todo.append(("random", gen_case(rng, op)))
+    todo += directed_cases(ctx.subrng(prop, "directed"), ctx.scale(1, 8, 4))
+    lines, expect, cases = [], [], []
+    for fam, case in todo:
+        op = case["op"]
+        o = execute(case)
+        res.evaluations += 1
+        res.count("op." + op)
+        if fam != "random":
+            res.count("directed." + fam)
+        if o.parent_err is not None:
+            res.count("parent-error")
+            continue
+        res.count("outcome." + ("error:" + type(o.err).__name__ if o.err is not None else "returned"))
+        if fam != "random" and o.err is not None:
+            res.count("directed-error.%s.%s" % (fam, type(o.err).__name__))
+        res.count("rows.%s" % ("1-5" if o.inp.size <= 5 else "6-15" if o.inp.size <= 15 else "16-40" if o.inp.size <= 40 else "41+"))
+        if o.rng is not None and any(e[0].startswith("other:") for e in o.rng.log):
+            res.notes.append("unrecorded generator method used by %s: %s" % (op, [e[0] for e in o.rng.log if e[0].startswith("other:")][:3]))
+        oracle(res, case, o)
+        clause_counters(res, case, o)
+        if nontrivial(case, o):
+            res.nontrivial.add((op, common.short_hash(case)))
+        line = driver_line(case, o)
+        out = impl_canon(case, o)
+        if rng.random() < 0.01:
+            res.sample({"op": op, "params": case["params"], "line": line[:400], "impl": out[:300]})
+        lines.append(line)
+        expect.append(out)
+        cases.append(case)
     if ctx.driver is not None:
         got = ctx.driver.ask(lines)
         for l, e, g, c in zip(lines, expect, got, cases):
